@@ -5,7 +5,7 @@ import asyncio
 import signal
 
 from .. import cli, env, kernel
-from ..harness import World, execute, params_snapshot, place_summary, probe, violation
+from ..harness import World, consume_with_timeout, execute, params_snapshot, place_summary, probe, violation
 
 LEVEL = "exploration"
 PLAN = {
@@ -21,7 +21,7 @@ RULE = (
     "executed exactly once, by the function the reference resolution gives (last registration of the name, and only if that "
     "actor's queue is the job's queue); jobs foreign to every running worker are never executed, acked or dead-lettered, keep "
     "their parameters and are waiting after the workers stopped; an owning worker started afterwards executes each exactly "
-    "once; own jobs behind foreign ones finish within 6 s. non-trivial = at least one foreign and one own job shared a queue; "
+    "once; own jobs behind foreign ones finish within 6 s. In-memory single-worker runs also get a size-neutral change of a shared queue 3 s in (one foreign message taken by another consumer, one own job enqueued in the same instant): the own job has started 1 s later. non-trivial = at least one foreign and one own job shared a queue; "
     "distinct = interleaving digest."
 )
 SHRINK_LISTS = ("jobs", "routers")
@@ -48,7 +48,10 @@ def gen(rng, broker, tier):
                      "delayed": rng.random() < 0.25})
     return {"routers": routers, "workers": workers, "jobs": jobs, "until_us": rng.choice([400_000, 1_200_000]),
             "knobs": {"step_cost": rng.choice([0, 0, 1, "rand"]),
-                      "net": {"lat_lo": 50, "lat_hi": rng.choice([300, 3000]), "frag_p": rng.choice([0, 0.1])}}}
+                      "net": {"lat_lo": 50, "lat_hi": rng.choice([300, 3000]), "frag_p": rng.choice([0, 0.1])}},
+            # (in-memory, one worker) while the worker idles next to a backlog of foreign messages, one of those is taken by
+            # somebody else and a job of the worker's own arrives in the same instant: the queue is as long as before
+            "swap": rng.random() < 0.4}
 
 
 def shrink_fixup(sc):
@@ -131,7 +134,42 @@ async def _main(sim, sc, out):
     t_start = sim.clock.us
     await sim.loop.spawn("p", produce())
     t_enq = sim.clock.us
-    await asyncio.sleep(6.0)
+    all_jobs = list(sc["jobs"])
+    if sc.get("swap") and b == "mem" and len(workers) == 1:
+        await asyncio.sleep(3.0)
+        ref0 = workers[0][2]
+        insp0 = world.inspect()
+        cand = None
+        for q in QUEUES:
+            own_names = sorted(n for n, (_m, qq) in ref0.items() if qq == q)
+            foreign = [j for j in sc["jobs"] if j["queue"] == q and not owners(j) and not j.get("delayed")
+                       and place_summary(insp0, j["id"]) == "waiting"]
+            if own_names and len(foreign) >= 2:
+                cand = (q, own_names[0], foreign[0])
+                break
+        if cand:
+            q, own_name, fj = cand
+            mb = world.conn("p").message_broker
+            cons = mb.get_consumer(q, [fj["name"]], None)
+            await cons.start()
+            res = await consume_with_timeout(cons, 0.05)
+            job = r.Job(own_name, queue=q, id_="jswap", args={"jid": "jswap"}, store_result=False, _connection=world.conn("p"))
+            await job.enqueue()
+            all_jobs.append({"id": "jswap", "name": own_name, "queue": q, "prio": 5, "at_us": 0})
+            probe(out, "size-neutral-change-of-a-shared-queue")
+            await asyncio.sleep(1.0)
+            if res is not None and not any(x[1] == "jswap" for x in ran):
+                # (judged before the taken message goes back, which changes the length of the queue once more)
+                V.append(violation("blocked", f"C11/{b}/own-job-not-started-within-1s-of-its-arrival-next-to-a-foreign-backlog",
+                                   queue=q, name=own_name))
+            if res is not None:
+                await mb.reject(res[0])  # put back unchanged: it is still its owner's
+            await cons.finish()
+            await asyncio.sleep(2.0)
+        else:
+            await asyncio.sleep(3.0)
+    else:
+        await asyncio.sleep(6.0)
     for (w, wk, ref) in workers:
         sim.loop.deliver_signal(w["node"], signal.SIGINT)
     for t in tasks:
@@ -147,7 +185,7 @@ async def _main(sim, sc, out):
     insp = world.inspect()
     shared = False
     foreign_left = []
-    for j in sc["jobs"]:
+    for j in all_jobs:
         mine = [x for x in ran if x[1] == j["id"]]
         own = owners(j)
         # another running worker consumes the same queue without owning this job: it bounces the message back, and
@@ -170,7 +208,7 @@ async def _main(sim, sc, out):
                 V.append(violation("blocked", f"C11/{b}/own-job-late", id=j["id"]))
         else:
             foreign_left.append(j)
-            if any(o for o in sc["jobs"] if o["queue"] == j["queue"] and owners(o)):
+            if any(o for o in all_jobs if o["queue"] == j["queue"] and owners(o)):
                 shared = True
             if mine:
                 reg = mine[0][2]
